@@ -209,6 +209,18 @@ where
     jobs.push(Job::new(job_name::<U>("i/int_to_float"), move |ctx| {
         ctx.run("int_to_float", ctx.budget(QUICK, FACTOR), int_values(sh, true), eval_int_to_float::<I>);
     }));
+    jobs.push(Job::new(job_name::<U>("sweep"), move |ctx| {
+        let full = ctx.tier() == vlib::Tier::Thorough;
+        ctx.enumerate("int_to_float_u", "2^k - 1, 2^k, 2^k + 1, negations, complements for every k", position_values(sh, full), eval_int_to_float::<U>);
+        ctx.enumerate("int_to_float_i", "2^k - 1, 2^k, 2^k + 1, negations, complements for every k", position_values(sh, full), eval_int_to_float::<I>);
+        // every power-of-two float 2^e (and its neighbours in the float lattice), both signs, into the type
+        let f64s = || (0u64..2047).flat_map(|e| [0u64, 1, (1 << 52) - 1].into_iter().flat_map(move |m| [0u64, 1].into_iter().map(move |s| ((s << 63) | (e << 52) | m, false))));
+        let f32s = || (0u64..255).flat_map(|e| [0u64, 1, (1 << 23) - 1].into_iter().flat_map(move |m| [0u64, 1].into_iter().map(move |s| ((s << 31) | (e << 23) | m, true))));
+        ctx.enumerate("f64_to_u", "every f64 exponent x 3 mantissas x 2 signs", f64s(), eval_float_to_int::<U>);
+        ctx.enumerate("f64_to_i", "every f64 exponent x 3 mantissas x 2 signs", f64s(), eval_float_to_int::<I>);
+        ctx.enumerate("f32_to_u", "every f32 exponent x 3 mantissas x 2 signs", f32s(), eval_float_to_int::<U>);
+        ctx.enumerate("f32_to_i", "every f32 exponent x 3 mantissas x 2 signs", f32s(), eval_float_to_int::<I>);
+    }));
     jobs.push(Job::new(job_name::<U>("u/float_to_int"), move |ctx| {
         ctx.run("f32_to_int", ctx.budget(QUICK, FACTOR), float_bits(F32, U::W).prop_map(|b| (b, true)), eval_float_to_int::<U>);
         ctx.run("f64_to_int", ctx.budget(QUICK, FACTOR), float_bits(F64, U::W).prop_map(|b| (b, false)), eval_float_to_int::<U>);
@@ -250,7 +262,7 @@ fn main() {
     runner::main(
         Property {
             id: "C14",
-            rule: "int -> float: [p-bit kept mantissa | discarded tail] values at every bit length L (uniform 1..W plus 23..26, 52..55, 64/65, 127..129, 1023..1025, W-2..W) with kept mantissa odd / even / all ones and tail in {0..0, 0..01, 10..0 (exact tie), 10..01, 01..1, 1..1, tie + far low bit, random}, for both f32 and f64 targets, negatives for signed types; plus structured patterns and boundary values. float -> int: bit patterns sign x exponent class {0 (subnormal/zero), 1, bias-3..bias+3, bias+p-1 +-2, bias+W-3..bias+W+2, uniform in range, largest finite, all-ones (inf/NaN), uniform} x mantissa class {0, 1, MSB, all ones, single bit, high run, uniform}, plus n + {0.5, 0.25, 0.75, 0.999, -0.5} around integers. Oracle: float model (exact decode, exact truncation, clamp to [MIN, MAX], NaN -> 0; round-to-nearest-even from the reference integer with infinity beyond the largest finite), compared bit-for-bit via to_bits(); the model is validated against `as` on primitives at start-up and in-line at 8..128 bits. NON-TRIVIAL: int -> float with bit length > p (rounding can happen); float -> int with |f| >= 1 and a fractional part, or |f| >= 2^(W-2), or non-finite, or -0.0. distinct = distinct (profile, job, inputs) by 64-bit hash. Exhaustive: all 8- and 16-bit integers to f32/f64; an f32 grid around 1.0 into the 8-bit types.",
+            rule: "int -> float: [p-bit kept mantissa | discarded tail] values at every bit length L (uniform 1..W plus 23..26, 52..55, 64/65, 127..129, 1023..1025, W-2..W) with kept mantissa odd / even / all ones and tail in {0..0, 0..01, 10..0 (exact tie), 10..01, 01..1, 1..1, tie + far low bit, random}, for both f32 and f64 targets, negatives for signed types; plus structured patterns and boundary values. float -> int: bit patterns sign x exponent class {0 (subnormal/zero), 1, bias-3..bias+3, bias+p-1 +-2, bias+W-3..bias+W+2, uniform in range, largest finite, all-ones (inf/NaN), uniform} x mantissa class {0, 1, MSB, all ones, single bit, high run, uniform}, plus n + {0.5, 0.25, 0.75, 0.999, -0.5} around integers. Oracle: float model (exact decode, exact truncation, clamp to [MIN, MAX], NaN -> 0; round-to-nearest-even from the reference integer with infinity beyond the largest finite), compared bit-for-bit via to_bits(); the model is validated against `as` on primitives at start-up and in-line at 8..128 bits. NON-TRIVIAL: int -> float with bit length > p (rounding can happen); float -> int with |f| >= 1 and a fractional part, or |f| >= 2^(W-2), or non-finite, or -0.0. distinct = distinct (profile, job, inputs) by 64-bit hash. Exhaustive: all 8- and 16-bit integers to f32/f64; an f32 grid around 1.0 into the 8-bit types. A deterministic SWEEP additionally enumerates, per configuration, position-specific inputs (2^k - 1, 2^k, 2^k + 1 with their negations and complements; carry / borrow chains and power-of-two products ending at every bit position k; every shift / rotate amount; every bit index; every float exponent) - all positions on types up to 1088 bits, a sparse selection of a few hundred positions on wider types in the quick tier, all positions in the thorough tier.",
             assumptions: &[
                 "digits()/from_digits()/to_bits()/from_bits() and f32/f64::to_bits/from_bits are the trusted observation channel",
                 "float model validated against `as` on u8..u128 / i8..i128 on every run",
